@@ -41,7 +41,8 @@ def scalarTy : Ty → Bool
   | .string => true
   | _ => false
 
-/-- equality of fragment types (scalars, and struct / enum types by name) -/
+mutual
+/-- equality of fragment types (scalars, struct / enum types by name, references and tuples componentwise) -/
 def scalarEq : Ty → Ty → Bool
   | .unit, .unit => true
   | .bool, .bool => true
@@ -50,22 +51,40 @@ def scalarEq : Ty → Ty → Bool
   | .struct a, .struct b => a == b
   | .enum a, .enum b => a == b
   | .ref a, .ref b => scalarEq a b
+  | .tuple as, .tuple bs => scalarEqs as bs
   | _, _ => false
+def scalarEqs : List Ty → List Ty → Bool
+  | [], [] => true
+  | a :: as, b :: bs => scalarEq a b && scalarEqs as bs
+  | _, _ => false
+end
 
-/-- scalar, a struct / enum type (by name), or a reference to such -/
+mutual
+/-- scalar, a struct / enum type (by name), or a reference to / a tuple of such -/
 def flatTy : Ty → Bool
   | .struct _ => true
   | .enum _ => true
   | .ref e => flatTy e
+  | .tuple ts => flatTys ts
   | t => scalarTy t
+def flatTys : List Ty → Bool
+  | [] => true
+  | t :: ts => flatTy t && flatTys ts
+end
 
+mutual
 /-- value types relative to sets `S`, `E` of admitted struct and enum names: scalars, admitted structs and
-    enums, references to value types -/
+    enums, references to and tuples of value types -/
 def valTyS (S E : List String) : Ty → Bool
   | .struct n => S.contains n
   | .enum n => E.contains n
   | .ref e => valTyS S E e
+  | .tuple ts => valTysS S E ts
   | t => scalarTy t
+def valTysS (S E : List String) : List Ty → Bool
+  | [] => true
+  | t :: ts => valTyS S E t && valTysS S E ts
+end
 
 /-- `_i, _{i+1}, …` (`k` names): the Go field names of a variant struct (and of a tuple struct) -/
 def fieldNames : Nat → Nat → List String
@@ -139,6 +158,17 @@ def refTableOK (env : Env) (F : GFile) (t : Ty) : Bool :=
       (match F.structFields (refStructName e) with
        | some decl => decl.map (·.1) == ["value"]
        | none => false)
+  | _ => true
+
+/-- the emitted file declares the struct of a tuple type of the fragment with the fields `_0, _1, …` -/
+def tupleTableOK (env : Env) (F : GFile) (t : Ty) : Bool :=
+  match t with
+  | .tuple ts =>
+    !valTy env t ||
+      ((fieldNames 0 ts.length).Nodup &&
+       (match F.structFields (goTypeNameFor t) with
+        | some decl => decl.map (·.1) == fieldNames 0 ts.length
+        | none => false))
   | _ => true
 
 def intTy : Ty → Bool
@@ -275,6 +305,10 @@ def callOK (env : Env) (file : AFile) (G : List String) (Γ : Ctx) (f : Imm) (ar
        | none => false)
   | _ => false
 
+/-- a tuple type whose struct `go_file` emits: a value type that `collect_runtime_types` finds in the file -/
+def tupleTyOK (env : Env) (file : AFile) (t : Ty) : Bool :=
+  valTy env t && (collectRuntimeTypes file).tuples.any (Goml.Mono.tyBeq t)
+
 /-- the names of the reference builtins (`ref(v)`, `ref_get(r)`, `ref_set(r, v)`) -/
 def refNames : List String := ["ref", "ref_get", "ref_set"]
 
@@ -352,6 +386,16 @@ def fragC (env : Env) (file : AFile) (G : List String) (Γ : Ctx) (K : KCtx) : C
     (match variantOf env (.enum tn) vi with
      | some v => (match v.2.2[idx]? with | some t => scalarEq ty t | none => false)
      | none => false)
+  | .tuple items ty =>
+    (match ty with
+     | .tuple ts => argsOK env Γ items ts && tupleTyOK env file (.tuple ts)
+     | _ => false)
+  | .proj e idx ty =>
+    immOK env Γ e &&
+    (match e.ty with
+     | .tuple ts => valTy env (.tuple ts) && (fieldNames 0 ts.length).Nodup &&
+         (match ts[idx]? with | some t => scalarEq ty t | none => false)
+     | _ => false)
   | .ite c t e ty =>
     immOK env Γ c && scalarEq c.ty .bool && fragA env file G Γ K t && fragA env file G Γ K e &&
     scalarEq (aTy t) ty && scalarEq (aTy e) ty
@@ -488,7 +532,7 @@ def fileOK (env : Env) (file : AFile) (n : Nat) : Bool :=
   file.all (fun f => !builtinNames.contains f.name && !refNames.contains f.name) &&
   reservedGoNames.all (fun r => (F.findFunc r).isNone) &&
   structsClosed env && (goodStructs env).all (structTableOK env F) && (goodEnums env).all (enumTableOK env F) &&
-  (collectRuntimeTypes file).refs.all (refTableOK env F)
+  (collectRuntimeTypes file).refs.all (refTableOK env F) && (collectRuntimeTypes file).tuples.all (tupleTableOK env F)
 
 /-- `G` is closed: the file-level conditions hold and every member passes the local checks with
     all its callees in `G` -/
@@ -553,6 +597,11 @@ def tyReason (env : Env) (t : Ty) : String :=
          | some t => "enum-with-" ++ tyClass t ++ "-payload"
          | none => "enum")
      | none => "unknown-enum")
+  | .tuple ts =>
+    (match ts.find? (fun t => !valTy env t) with
+     | some t => "tuple-with-" ++ tyClass t ++ "-component"
+     | none => "tuple")
+  | .ref e => if valTy env e then "ref" else "ref-to-" ++ tyClass e
   | t => tyClass t
 
 mutual
@@ -588,7 +637,9 @@ def reasonC (env : Env) (file : AFile) (G : List String) (Γ : Ctx) (K : KCtx) :
   | .constr (.struct n) args ty =>
     if fragC env file G Γ K (.constr (.struct n) args ty) then none
     else (firstSome args (immReason env Γ)).orElse fun _ => some ("node:struct-constructor(" ++ tyReason env (.struct n) ++ ")")
-  | .tuple _ _ => some "node:tuple"
+  | .tuple items ty =>
+    if fragC env file G Γ K (.tuple items ty) then none
+    else (firstSome items (immReason env Γ)).orElse fun _ => some ("node:tuple(" ++ tyReason env ty ++ ")")
   | .array _ _ => some "node:array"
   | .matchE s arms d ty =>
     if fragC env file G Γ K (.matchE s arms d ty) then none
@@ -616,7 +667,9 @@ def reasonC (env : Env) (file : AFile) (G : List String) (Γ : Ctx) (K : KCtx) :
   | .toDyn _ _ _ _ => some "node:to-dyn"
   | .dynCall _ _ _ _ _ => some "node:dyn-call"
   | .go _ _ => some "node:go"
-  | .proj _ _ _ => some "node:tuple-proj"
+  | .proj e idx ty =>
+    if fragC env file G Γ K (.proj e idx ty) then none
+    else (immReason env Γ e).orElse fun _ => some ("node:tuple-proj(" ++ tyReason env e.ty ++ ")")
 def reasonA (env : Env) (file : AFile) (G : List String) (Γ : Ctx) (K : KCtx) : AExpr → Option String
   | .ret c => reasonC env file G Γ K c
   | .letE x v b _ => (reasonC env file G Γ K v).orElse fun _ => reasonA env file G ((x, v.annTy) :: Γ) (eraseK K x) b
